@@ -116,6 +116,7 @@ struct Gen<'a> {
     st: &'a mut Stats,
     dead: bool,
     nontrivial_marks: u64,
+    spun: bool,
 }
 
 impl<'a> Gen<'a> {
@@ -375,7 +376,11 @@ impl<'a> Gen<'a> {
     /// drive the router until nothing moves any more; returns whether idle was reached
     fn run_to_idle(&mut self) -> bool {
         let mut only_consume = 0;
-        for _round in 0..400 {
+        // a router that spins (a shared-subscription request skipped forever) never goes idle:
+        // after the first detection the later attempts are kept short
+        let rounds = if self.spun { 3 } else { 400 };
+        let consumes = if self.spun { 12 } else { 120 };
+        for _round in 0..rounds {
             if self.dead {
                 return false;
             }
@@ -386,7 +391,7 @@ impl<'a> Gen<'a> {
                     self.signal(i);
                 }
             }
-            for _ in 0..120 {
+            for _ in 0..consumes {
                 if self.op("consume".into()).starts_with('0') || self.dead {
                     break;
                 }
@@ -427,6 +432,7 @@ impl<'a> Gen<'a> {
         }
         self.op("note spin".into());
         self.st.tag("spin");
+        self.spun = true;
         false
     }
 
@@ -536,7 +542,7 @@ fn one_case(o: &Opts, w: &mut dyn Write, st: &mut Stats, p: &Profile, case: u64,
     let strat = *rng.pick(&["rr", "rnd", "sticky"]);
     let nclients = rng.range(p.clients.0, p.clients.1);
     let steps = rng.range(p.steps.0, if o.thorough() { p.steps.1 * 2 } else { p.steps.1 });
-    let mut g = Gen { w, world: World::new(), rng, sims: vec![], seq: 0, ops: 0, p, st, dead: false, nontrivial_marks: 0 };
+    let mut g = Gen { w, world: World::new(), rng, sims: vec![], seq: 0, ops: 0, p, st, dead: false, nontrivial_marks: 0, spun: false };
     g.op(format!("new {max_conn} {seg_size} {seg_count} {max_out} {strat}"));
     for l in 0..nclients as usize {
         let clean = if p.persistent { g.rng.chance(1, 2) } else { true };
